@@ -126,8 +126,19 @@ def generate(ctx):
                     if ck[0] in ('boolseries', 'iloc'):
                         ck = ('null',)
                     case['rowkey'], case['colkey'] = None, ck
+                if iface == 'assign' and route == 'iloc' and nr >= 1 and nc >= 2 and rng.random() < 0.12:
+                    # one row, several columns in an order other than ascending, a labelled (Series) value: the value is aligned by
+                    # label while the blocks are written in ascending column order -- both sites have to agree on the order
+                    perm = rng.sample(range(nc), rng.randint(2, nc))
+                    if perm == sorted(perm):
+                        perm.reverse()
+                    case['rowkey'] = ('int', rng.randrange(nr))
+                    case['colkey'] = rng.choice([('list', perm), ('array', perm), ('slice', None, None, -1), ('slice', nc - 1, 0, -1), ('slice', None, None, -2)])
+                    case['focus'] = 'row_series_descending_columns'
                 if iface == 'assign':
                     shapes = ['scalar', 'scalar', 'array', 'array', 'series', 'frame']
+                    if case.get('focus'):
+                        shapes = ['series', 'series', 'apply_identity'] if not (spec.row_kind.startswith('hier') or spec.col_kind.startswith('hier')) else ['series']
                     if not (spec.row_kind.startswith('hier') or spec.col_kind.startswith('hier')):
                         shapes += ['apply_identity', 'apply_const']
                     case['vshape'] = rng.choice(shapes)
